@@ -214,10 +214,12 @@ pub fn gen(rng: &mut Rng, thorough: bool, sink: &mut Sink) {
   { let b64 = |rng: &mut Rng, n: usize| -> String { (0..n).map(|_| *rng.pick(&"ABCXYZabcxyz0189-_".chars().collect::<Vec<char>>())).collect() };
     let fams: [(i64, &[&str], &[&str]); 4] = [(0, &["crv", "x", "y"], &["d"]), (1, &["n", "e"], &["d", "p", "q", "dp", "dq", "qi"]), (2, &["k"], &[]), (3, &["crv", "x"], &["d"])];
     let lens: Vec<usize> = if thorough { (0..140).collect() } else { vec![0, 1, 2, 3, 10, 11, 20, 21, 22, 30, 31, 32, 33, 40, 43, 44, 54, 55, 56, 57, 63, 64, 65, 86, 100, 118, 119, 120, 121, 128, 342] };
-    for (fam, req, privs) in fams.iter() { for &len in &lens { for variant in 0..4 {
+    for (fam, req, privs) in fams.iter() { for &len in &lens { for variant in 0..6 {
       let mut ms: Vec<(String, String)> = req.iter().map(|r| (r.to_string(), if *r == "crv" { ["P-256", "Ed25519", "secp256k1", "", "X"][len % 5].to_string() } else if *r == "e" { "AQAB".to_string() } else { b64(rng, len) })).collect();
       if variant & 1 == 1 { for p in privs.iter() { ms.push((p.to_string(), b64(rng, 8))); } ms.push(("kid".into(), "some-kid".into())); ms.push(("alg".into(), "EdDSA".into())); }
       if variant & 2 == 2 { ms.reverse(); }
+      // a kid that LOOKS like a thumbprint (43 base64url characters: the RFC 7638 example's) but is not this key's
+      if variant >= 4 { ms.push(("kid".into(), "NzbLsXh8uDCcd-6MNwXF4W_7noWXFZAfHkxZsRGC9Xs".into())); if variant == 5 { ms.reverse(); } }
       let mut c = vec![4, *fam, *fam, ms.len() as i64]; for (n, v) in &ms { put_bytes(&mut c, n.as_bytes()); put_bytes(&mut c, v.as_bytes()); } sink.case(c, "thumbprint-bytes");
     } } }
     // values that a JSON writer would escape: the format string inserts them verbatim
